@@ -37,7 +37,7 @@ ALLOWED_AXIOMS = set()   # every pinned theorem must be "Closed under the global
 TRUSTED_BASE = [
     "Coq 8.16.1 kernel (coqc full .vo build; vm_compute used in side lemmas and examples; no native_compute)",
     "axioms: none (Print Assumptions of every pinned theorem must say 'Closed under the global context')",
-    "tools/gen_constants.py (regex translator of literals and the Command match table into Gen/Generated.v)",
+    "tools/gen_constants.py (translator: a Rust lexer, a constant-expression evaluator with named-const resolution, and pattern extraction of literals, the Command match table and boolean/integer structural facts about the shape of named functions, into Gen/Generated.v; regression-tested by tools/test_translator.py against behaviour-preserving and behaviour-breaking patches)",
     "extraction with ExtrOcamlBasic only (Extract Inductive bool/option/list/prod/unit/sumbool; no Extract Constant), ocamlopt 4.13.1, extract/driver*.ml",
     "harness/ (Rust executor of the implementation), tools/ (Python generators, reference oracles, comparison)",
     "hand-written Gallina models are tied to the code by differential execution (sampling), not by proof",
@@ -86,10 +86,13 @@ def gen_constants():
     e = dict(os.environ)
     e["VERIF_GEN_OUT"] = os.path.join(COQ, "Gen", "Generated.v")
     rc, out, err, _ = run([sys.executable, os.path.join(VERIF, "tools", "gen_constants.py")], env=e)
+    # problems are dicts {"msg", "file", "names": [generated definitions the problem affects]}; an empty `names` list means
+    # the problem is global (it concerns every property). ./check attributes them to properties (translator_scope).
     try:
-        return json.loads(out.strip().splitlines()[-1])["problems"]
+        probs = json.loads([ln for ln in out.strip().splitlines() if ln.startswith("{")][-1])["problems"]
     except Exception:
-        return ["gen_constants.py failed: " + (err or out)[-400:]]
+        return [{"msg": "gen_constants.py failed: " + (err or out)[-400:], "file": "", "names": []}]
+    return [p if isinstance(p, dict) else {"msg": str(p), "file": "", "names": []} for p in probs]
 
 
 COQ_DIRS = ["Model", "Gen", "Proofs", "Legacy", "Props", "Extract"]   # Gen/Generated.v is regenerated; Gen/Facts*.v are its side lemmas
